@@ -7,7 +7,7 @@ RangesSmall == {<<0, 2*T+1>>, <<1, 2*T+1>>, <<0, 2>>}
 CONSTANTS MCKeySets, MCStarts, MCRanges
 NextMC == \/ \E w \in Writers, g \in Node, keys \in MCKeySets, s \in MCStarts, sy, au \in BOOLEAN : OpenWriter(w, g, keys, s, sy, au)
           \/ \E w \in Writers, gs \in SUBSET Groups, fr \in BOOLEAN, ts \in SUBSET Even : WriteReq(w, gs, fr, ts)
-          \/ \E w \in Writers, n \in Holders : LocalWrite(w, n) \/ LocalCommit(w, n)
+          \/ \E w \in Writers, n \in Holders : LocalWrite(w, n) \/ LocalCommit(w, n) \/ LocalCommitFail(w, n)
           \/ \E w \in Writers : WriteAck(w) \/ CommitReq(w) \/ CommitAck(w) \/ CloseWriter(w)
           \/ \E g \in Node, keys \in MCKeySets, r \in MCRanges : IterOpen(g, keys, r[1], r[2])
           \/ \E n \in Node : IterResp(n)
